@@ -71,6 +71,10 @@ def boundary2_case(offset):
 def make_case(spec):
     if spec.get('special') == 'boundary2':
         return boundary2_case(spec['offset'])
+    if spec.get('special') == 'through-faces':
+        return geo.build_through_faces(spec['cell'], spec['pattern'], random.Random(spec['seed']), depth=spec.get('depth', 0.05), anchor=spec.get('anchor', 0))
+    if spec.get('special') == 'axis-poses':
+        return geo.build_axis_poses(spec['cell'], spec['pattern'], random.Random(spec['seed']), spec['which'])
     rnd = random.Random(spec['seed'])
     return geo.build(spec['cell'], spec['pattern'], spec['copies'], rnd, noise=spec.get('noise', 0.0), decoys=spec.get('decoys', 0),
                      mirror_decoys=spec.get('mirror', 0), near_miss=spec.get('near_miss', 0), atol=spec.get('atol', 0.05),
@@ -125,6 +129,17 @@ def specs(tier, seed):
         for s in range(2 if tier == 'quick' else 8):
             out.append(dict(cell=cell, pattern='nearlinear3', copies=2, seed=seed * 1000 + 300 + s, decoys=2, bent=2, rng=s))
             out.append(dict(cell=cell, pattern='nearlinear3', copies=1, seed=seed * 1000 + 400 + s, decoys=1, bent=1, rng=s, hints=dict(axisp1_idx=0, axisp2_idx=2, opoint_idx=1)))
+    # stress placements: copies sticking out through every face by (almost) their full length, in cubic and strongly tilted cells;
+    # axis-aligned poses (incl. exactly antiparallel) of patterns written along x, y and z
+    for cell in ('cubic', 'tri+', 'tri-', 'rhombo', 'rhombo-'):
+        for pat in ('long5', 'chiral4', 'pair'):
+            for s in range(1 if tier == 'quick' else 4):
+                out.append(dict(special='through-faces', cell=cell, pattern=pat, seed=seed * 1000 + 500 + s, rng=s))
+                out.append(dict(special='through-faces', cell=cell, pattern=pat, seed=seed * 1000 + 550 + s, rng=s, anchor=-1))
+    for cell in ('cubic', 'tri+'):
+        for pat in ('pair', 'pair-y', 'collinear3', 'collinear3-y', 'planar3', 'planar3-y', 'planar3-z', 'chiral4'):
+            for which in range(3):
+                out.append(dict(special='axis-poses', cell=cell, pattern=pat, which=which, seed=seed * 1000 + 600, rng=which))
     # hint triples for small patterns
     for pat in ['pair', 'planar3', 'chiral4']:
         n = len(geo.PATTERNS[pat][0])
